@@ -57,10 +57,12 @@ def run_one(plan, executor, judge, generators, want_log, tag):
         "index": plan.get("index"),
         "plan_digest": executor.digest(plan),
         "cmp_digest": executor.digest(comp),
+        "full_digest": executor.digest([result["log"], result["isolated"], result["snaps"]]),
         "violations": verdict["violations"],
         "stats": verdict["stats"],
         "fs": result["fs"],
         "steps": len(result["log"]),
+        "cover": (plan.get("meta") or {}).get("cover") or [],
         "iso_outcomes": {k: executor.digest(v) for k, v in comp["iso_outcomes"].items()},
     }
     if want_log:
